@@ -23,7 +23,7 @@ def gen_case(seed, k, cap):
         extra.append("Ord")
     ts = ts + extra
     rng.shuffle(ts)
-    td = G.random_type(rng, ts, G.Opts(p_attr=0.8, max_fields=4, max_variants=4, bounds=True, p_partial=0.7, p_repr=0.3, all_method=rng.random() < 0.1))
+    td = G.random_type(rng, ts, G.Opts(p_attr=0.8, max_fields=4, max_variants=4, bounds=True, p_partial=0.7, p_repr=0.3, all_method=rng.random() < 0.1, p_packed=0.5))
     text = S.render(td, rng_for(seed, PROP, "spell", k), extras=False)
     vals = S.values(td, cap, rng)
     drive = ("        %sdrive_eq(\"c%d\", %d, &mk);\n        %sdrive_eq_self(\"c%d\", %d, &mk);"
